@@ -95,6 +95,9 @@ def main():
     rc, out = run("git -C /repo apply %s" % patch)
     if rc != 0:
         print("cannot apply to /repo:", out); return 2
+    import tempfile
+    evidence_backup = tempfile.mkdtemp(prefix="evidence-")
+    shutil.copytree("/verif/evidence", evidence_backup + "/e")
     try:
         for c in checks:
             t0 = time.time()
@@ -105,6 +108,10 @@ def main():
             print(c, meta["checks"][c]["verdict"], lines[:2], detail[:1])
     finally:
         run("git -C /repo checkout -- .")
+        # evidence must describe runs on the unchanged tree: put back what was there before the mutant runs
+        shutil.rmtree("/verif/evidence", ignore_errors=True)
+        shutil.copytree(evidence_backup + "/e", "/verif/evidence")
+        shutil.rmtree(evidence_backup, ignore_errors=True)
         rc, out = run("git -C /repo status --porcelain")
         if out.strip():
             print("WARNING /repo still dirty:", out)
